@@ -75,7 +75,7 @@ Canonical(segs, r) ==   \* unstable record whose alignment touches its first and
 
 -----------------------------------------------------------------------------
 (* Generator *)
-CONSTANTS MaxRef, MaxHap, Lens, Gaps, MaxWalk
+CONSTANTS MaxRef, MaxHap, Lens, Gaps, MaxWalk, HapBase
 VARIABLES ref, hap, phase, walk
 gvars == <<ref, hap, phase, walk>>
 NNodes == Len(ref) + Len(hap)
@@ -95,7 +95,7 @@ GSpec == GInit /\ [][GNext]_gvars
 (* the graph denoted by the generator state: nodes 1..NNodes, chr1 tiled by ref, hapA by hap *)
 RECURSIVE PrefixSum(_, _)
 PrefixSum(s, k) == IF k = 0 THEN 0 ELSE PrefixSum(s, k - 1) + s[k]
-HapStart(k) == 10 + PrefixSum([j \in 1..Len(hap) |-> hap[j][1] + hap[j][2]], k - 1) + hap[k][1]
+HapStart(k) == HapBase + PrefixSum([j \in 1..Len(hap) |-> hap[j][1] + hap[j][2]], k - 1) + hap[k][1]
 GenSegs == [n \in 1..NNodes |->
               IF n <= Len(ref) THEN [sn |-> "chr1", so |-> PrefixSum(ref, n - 1), ln |-> ref[n]]
               ELSE [sn |-> "hapA", so |-> HapStart(n - Len(ref)), ln |-> hap[n - Len(ref)][2]]]
